@@ -18,7 +18,12 @@ RULE = (
     ">= 2 members or the root query has LIMIT/OFFSET/DISTINCT.  Extra families: the input class of the "
     "subquery DISTINCT/OFFSET defect; 501 parents (default chunk size 500 splits); and, ORACLE ONLY (the model "
     "has no columns), column-loader options defer / load_only / undefer / with_expression / untriggered "
-    "raiseload at every level of the walk combined with all strategy assignments"
+    "raiseload at every level of the walk combined with all strategy assignments.  Composite primary keys "
+    "(2 and 3 columns) whose join condition lists the columns in another order than the primary key, with "
+    "mirrored key values and NULL components, both directions, every strategy (model: key-tuple extraction of "
+    "selectin).  Histories: tables of the walk pre-loaded into the Session (plainly, or with every other "
+    "relationship loaded) before the query, incl. a unidirectional chain x->y->z whose middle objects have "
+    "nothing unloaded but the walk's collection (graph compared with model and meaning; plan not compared)"
 )
 TRUSTED = [
     "hand-written Gallina transcription of the statement construction and row processing of "
@@ -50,6 +55,8 @@ ANCHORS = [
     ("lib/sqlalchemy/orm/strategies.py", "_SubqueryLoader._setup_outermost_orderby"),
     ("lib/sqlalchemy/orm/strategies.py", "_SubqueryLoader._apply_joins"),
     ("lib/sqlalchemy/orm/strategies.py", "_SelectInLoader._load_for_path"),
+    ("lib/sqlalchemy/orm/strategies.py", "_SelectInLoader._init_for_omit_join"),
+    ("lib/sqlalchemy/orm/strategies.py", "_SelectInLoader._init_for_omit_join_m2o"),
     ("lib/sqlalchemy/orm/strategies.py", "_LazyLoader._emit_lazyload"),
     ("lib/sqlalchemy/orm/strategies.py", "_JoinedLoader.setup_query"),
     ("lib/sqlalchemy/orm/strategies.py", "_JoinedLoader._create_eager_join"),
@@ -63,7 +70,7 @@ ANCHORS = [
 # schema: tables, and for each relationship (owner, attribute) -> (target, kind, order code, fk column)
 # kind 0 = Down (one-to-many collection, fk on the target), 1 = Up (many-to-one scalar, fk on the owner)
 # order codes: 0 id, 1 id desc, 2 (v, id), 3 (v desc, id), 4 none
-TABLES = ["m", "p", "c", "g", "d", "t"]
+TABLES = ["m", "p", "c", "g", "d", "t", "x", "y", "z"]
 RELS = {
     ("m", "ps"): ("p", 0, 0, "mid"),
     ("p", "m"): ("m", 1, 4, "mid"),
@@ -75,9 +82,13 @@ RELS = {
     ("g", "c"): ("c", 1, 4, "cid"),
     ("t", "cs"): ("c", 0, 0, "tid"),
     ("c", "t"): ("t", 1, 4, "tid"),
+    # unidirectional chain x -> y -> z (no reverse relationships: a y object has nothing but y.zs to load)
+    ("x", "ys"): ("y", 0, 0, "xid"),
+    ("y", "zs"): ("z", 0, 2, "yid"),
 }
-FKS = {"m": [], "p": ["mid"], "c": ["pid", "tid"], "g": ["cid"], "d": ["pid"], "t": []}
-FK_TARGET = {("p", "mid"): "m", ("c", "pid"): "p", ("c", "tid"): "t", ("g", "cid"): "c", ("d", "pid"): "p"}
+FKS = {"m": [], "p": ["mid"], "c": ["pid", "tid"], "g": ["cid"], "d": ["pid"], "t": [], "x": [], "y": ["xid"], "z": ["yid"]}
+FK_TARGET = {("p", "mid"): "m", ("c", "pid"): "p", ("c", "tid"): "t", ("g", "cid"): "c", ("d", "pid"): "p",
+             ("y", "xid"): "x", ("z", "yid"): "y"}
 REL_IDS = sorted(RELS)  # a relationship is named in a case by its index here
 
 LAZY, JOINED, SUBQ, IMM, SEL_DEFAULT = 0, 1, 2, 3, 4  # selectin with chunksize k>=1: 10 + k
@@ -183,7 +194,8 @@ def _gen_data(rng, rels, big=False):
 
 def model_input(walk, tables, uq, asgs, cmp_plan, side=None, preload=()):
     """side = (relationship index, rows of the side table) when the root query joins a side relationship;
-    preload = [[level, maxid or None]...]: tables of the walk SELECTed (plainly, ids <= maxid) into the Session
+    preload = [[level, maxid or None, mode]...]: tables of the walk SELECTed (ids <= maxid; mode 0 plainly, mode 1
+    with selectinload of every relationship other than the walk's next one) into the Session
     before the query, so that the loaders meet objects that are already present with the relationship unloaded"""
     rels = [REL_IDS[i] for i in walk]
     steps = [[RELS[r][1], RELS[r][2], i + 1, tables[i + 1]] for i, r in enumerate(rels)]
@@ -288,7 +300,7 @@ def gen_cases(rng, tier):
     # histories: some tables of the walk are already in the Session (plain SELECT, relationships unloaded)
     # when the query runs; what is loaded must not depend on that.  The plan does (identity map): not compared
     for _ in range({"quick": 30, "thorough": 500}[tier]):
-        w = rng.choice(w2 + w2 + w3)
+        w = rng.choice(w2 + w2 + w3 + [[("x", "ys"), ("y", "zs")]] * (len(w2) // 2))
         walk = [REL_IDS.index(r) for r in w]
         data = _gen_data(rng, w)
         uq = _gen_uq(rng, RELS[w[0]][1] == 0)
@@ -296,9 +308,29 @@ def gen_cases(rng, tier):
         asgs = [list(a) for a in itertools.product(*[[LAZY, JOINED, SUBQ, IMM, rng.choice([SEL_DEFAULT, 11, 12])]] * len(w))]
         if len(w) == 3:
             asgs = rng.sample(asgs, 25)
-        levels = [lv for lv in range(len(w) + 1) if rng.random() < 0.5] or [rng.randrange(1, len(w) + 1)]
-        preload = [[lv, rng.choice([None, None, 1, 2, 3])] for lv in levels]
+        # (a pre-loaded ROOT keeps the options of its first load, so the root level is taken less often)
+        levels = [lv for lv in range(len(w) + 1) if rng.random() < (0.2 if lv == 0 else 0.6)] or [rng.randrange(1, len(w) + 1)]
+        # mode 1: the pre-loaded objects have every OTHER relationship loaded, so that the relationship of the
+        # walk is the only thing a later row can still populate
+        preload = [[lv, rng.choice([None, None, None, 2, 3]), rng.choice([0, 0, 1])] for lv in levels]
         cases.append({"in": model_input(walk, data, uq, asgs, False, side, preload), "kind": "history"})
+    # ... in particular: the middle objects of x -> y -> z already present (nothing unloaded but y.zs), then every
+    # assignment (a lazy / immediate load of x.ys then carries the strategy for y.zs to existing objects)
+    for _ in range({"quick": 8, "thorough": 80}[tier]):
+        w = [("x", "ys"), ("y", "zs")]
+        walk = [REL_IDS.index(r) for r in w]
+        data = _gen_data(rng, w)
+        uq = _gen_uq(rng, True)
+        uq[0] = 0
+        if rng.random() < 0.7:
+            uq[5] = uq[6] = None
+        # some y with a parent gets at least two z rows
+        ys = [r for r in data[1] if r[1] is not None]
+        if ys and len(data[2]) >= 2:
+            for r in rng.sample(data[2], 2):
+                r[1] = ys[0][0]
+        asgs = [list(a) for a in itertools.product(*[[LAZY, JOINED, SUBQ, IMM, rng.choice([SEL_DEFAULT, 11, 12])]] * 2)]
+        cases.append({"in": model_input(walk, data, uq, asgs, False, None, [[1, None, 0]]), "kind": "history"})
     # column-loader options (defer / load_only / undefer / with_expression / untriggered raiseload) at every
     # level, combined with every relationship-strategy assignment: oracle only (the model has no columns)
     for _ in range({"quick": 24, "thorough": 400}[tier]):
@@ -418,101 +450,128 @@ def _setup():
         def e(cls):
             return query_expression()
 
-    Base = declarative_base(cls=Cols)
-
-    class M(Base):
-        __tablename__ = "m"
-        id = Column(Integer, primary_key=True)
-        v = Column(Integer)
-        ps = relationship("P", order_by="P.id", back_populates="m")
-
-    class P(Base):
-        __tablename__ = "p"
-        id = Column(Integer, primary_key=True)
-        v = Column(Integer)
-        mid = Column(ForeignKey("m.id"))
-        m = relationship("M", back_populates="ps")
-        cs = relationship("C", order_by="(C.v, C.id)", back_populates="p")
-        ds = relationship("D", order_by="(D.v.desc(), D.id)", back_populates="p")
-
-    class C(Base):
-        __tablename__ = "c"
-        id = Column(Integer, primary_key=True)
-        v = Column(Integer)
-        pid = Column(ForeignKey("p.id"))
-        tid = Column(ForeignKey("t.id"))
-        p = relationship("P", back_populates="cs")
-        t = relationship("T", back_populates="cs")
-        gs = relationship("G", order_by="G.id.desc()", back_populates="c")
-
-    class G(Base):
-        __tablename__ = "g"
-        id = Column(Integer, primary_key=True)
-        v = Column(Integer)
-        cid = Column(ForeignKey("c.id"))
-        c = relationship("C", back_populates="gs")
-
-    class D(Base):
-        __tablename__ = "d"
-        id = Column(Integer, primary_key=True)
-        v = Column(Integer)
-        pid = Column(ForeignKey("p.id"))
-        p = relationship("P", back_populates="ds")
-
-    class T(Base):
-        __tablename__ = "t"
-        id = Column(Integer, primary_key=True)
-        v = Column(Integer)
-        cs = relationship("C", order_by="C.id", back_populates="t")
-
     from sqlalchemy import ForeignKeyConstraint
 
-    class KP(Base):
-        __tablename__ = "kp"
-        a = Column(Integer, primary_key=True)
-        b = Column(Integer, primary_key=True)
-        v = Column(Integer)
-        kids_ab = relationship("KAB", order_by="KAB.id", back_populates="parent")
-        kids_ba = relationship("KBA", order_by="KBA.id", back_populates="parent")
+    def build(Base):
 
-    class KAB(Base):
-        __tablename__ = "kab"
-        id = Column(Integer, primary_key=True)
-        pa = Column(Integer)
-        pb = Column(Integer)
-        v = Column(Integer)
-        parent = relationship("KP", back_populates="kids_ab")
-        __table_args__ = (ForeignKeyConstraint(["pa", "pb"], ["kp.a", "kp.b"]),)
+        class M(Base):
+            __tablename__ = "m"
+            id = Column(Integer, primary_key=True)
+            v = Column(Integer)
+            ps = relationship("P", order_by="P.id", back_populates="m")
 
-    class KBA(Base):
-        __tablename__ = "kba"
-        id = Column(Integer, primary_key=True)
-        pb = Column(Integer)  # the join condition lists the pairs in the child's column order: (b, pb), (a, pa)
-        pa = Column(Integer)
-        v = Column(Integer)
-        parent = relationship("KP", back_populates="kids_ba")
-        __table_args__ = (ForeignKeyConstraint(["pb", "pa"], ["kp.b", "kp.a"]),)
+        class P(Base):
+            __tablename__ = "p"
+            id = Column(Integer, primary_key=True)
+            v = Column(Integer)
+            mid = Column(ForeignKey("m.id"))
+            m = relationship("M", back_populates="ps")
+            cs = relationship("C", order_by="(C.v, C.id)", back_populates="p")
+            ds = relationship("D", order_by="(D.v.desc(), D.id)", back_populates="p")
 
-    class KQ(Base):
-        __tablename__ = "kq"
-        a = Column(Integer, primary_key=True)
-        b = Column(Integer, primary_key=True)
-        c = Column(Integer, primary_key=True)
-        v = Column(Integer)
-        kids = relationship("KCAB", order_by="KCAB.id", back_populates="parent")
+        class C(Base):
+            __tablename__ = "c"
+            id = Column(Integer, primary_key=True)
+            v = Column(Integer)
+            pid = Column(ForeignKey("p.id"))
+            tid = Column(ForeignKey("t.id"))
+            p = relationship("P", back_populates="cs")
+            t = relationship("T", back_populates="cs")
+            gs = relationship("G", order_by="G.id.desc()", back_populates="c")
 
-    class KCAB(Base):
-        __tablename__ = "kcab"
-        id = Column(Integer, primary_key=True)
-        pc = Column(Integer)
-        pa = Column(Integer)
-        pb = Column(Integer)
-        v = Column(Integer)
-        parent = relationship("KQ", back_populates="kids")
-        __table_args__ = (ForeignKeyConstraint(["pc", "pa", "pb"], ["kq.c", "kq.a", "kq.b"]),)
+        class G(Base):
+            __tablename__ = "g"
+            id = Column(Integer, primary_key=True)
+            v = Column(Integer)
+            cid = Column(ForeignKey("c.id"))
+            c = relationship("C", back_populates="gs")
 
+        class D(Base):
+            __tablename__ = "d"
+            id = Column(Integer, primary_key=True)
+            v = Column(Integer)
+            pid = Column(ForeignKey("p.id"))
+            p = relationship("P", back_populates="ds")
+
+        class T(Base):
+            __tablename__ = "t"
+            id = Column(Integer, primary_key=True)
+            v = Column(Integer)
+            cs = relationship("C", order_by="C.id", back_populates="t")
+
+
+        class X(Base):
+            __tablename__ = "x"
+            id = Column(Integer, primary_key=True)
+            v = Column(Integer)
+            ys = relationship("Y", order_by="Y.id")
+
+        class Y(Base):
+            __tablename__ = "y"
+            id = Column(Integer, primary_key=True)
+            v = Column(Integer)
+            xid = Column(ForeignKey("x.id"))
+            zs = relationship("Z", order_by="(Z.v, Z.id)")
+
+        class Z(Base):
+            __tablename__ = "z"
+            id = Column(Integer, primary_key=True)
+            v = Column(Integer)
+            yid = Column(ForeignKey("y.id"))
+
+        class KP(Base):
+            __tablename__ = "kp"
+            a = Column(Integer, primary_key=True)
+            b = Column(Integer, primary_key=True)
+            v = Column(Integer)
+            kids_ab = relationship("KAB", order_by="KAB.id", back_populates="parent")
+            kids_ba = relationship("KBA", order_by="KBA.id", back_populates="parent")
+
+        class KAB(Base):
+            __tablename__ = "kab"
+            id = Column(Integer, primary_key=True)
+            pa = Column(Integer)
+            pb = Column(Integer)
+            v = Column(Integer)
+            parent = relationship("KP", back_populates="kids_ab")
+            __table_args__ = (ForeignKeyConstraint(["pa", "pb"], ["kp.a", "kp.b"]),)
+
+        class KBA(Base):
+            __tablename__ = "kba"
+            id = Column(Integer, primary_key=True)
+            pb = Column(Integer)  # the join condition lists the pairs in the child's column order: (b, pb), (a, pa)
+            pa = Column(Integer)
+            v = Column(Integer)
+            parent = relationship("KP", back_populates="kids_ba")
+            __table_args__ = (ForeignKeyConstraint(["pb", "pa"], ["kp.b", "kp.a"]),)
+
+        class KQ(Base):
+            __tablename__ = "kq"
+            a = Column(Integer, primary_key=True)
+            b = Column(Integer, primary_key=True)
+            c = Column(Integer, primary_key=True)
+            v = Column(Integer)
+            kids = relationship("KCAB", order_by="KCAB.id", back_populates="parent")
+
+        class KCAB(Base):
+            __tablename__ = "kcab"
+            id = Column(Integer, primary_key=True)
+            pc = Column(Integer)
+            pa = Column(Integer)
+            pb = Column(Integer)
+            v = Column(Integer)
+            parent = relationship("KQ", back_populates="kids")
+            __table_args__ = (ForeignKeyConstraint(["pc", "pa", "pb"], ["kq.c", "kq.a", "kq.b"]),)
+
+        return {"m": M, "p": P, "c": C, "g": G, "d": D, "t": T, "x": X, "y": Y, "z": Z, "kp": KP, "kab": KAB, "kba": KBA, "kq": KQ, "kcab": KCAB}
+
+    # two mappings of the same tables: the plain one (no deferred column: an object already in the Session has
+    # NOTHING unloaded but its relationships) and, for the column-option family, one with the payload columns
+    BaseCols = declarative_base(cls=Cols)
+    classes_cols = build(BaseCols)
+    classes = build(declarative_base())
     eng = create_engine("sqlite://", poolclass=StaticPool, connect_args={"check_same_thread": False})
-    Base.metadata.create_all(eng)
+    BaseCols.metadata.create_all(eng)
     log = []
 
     @event.listens_for(eng, "before_cursor_execute")
@@ -522,7 +581,9 @@ def _setup():
 
     _ENV.update(
         eng=eng,
-        classes={"m": M, "p": P, "c": C, "g": G, "d": D, "t": T, "kp": KP, "kab": KAB, "kba": KBA, "kq": KQ, "kcab": KCAB},
+        classes=classes,
+        classes_plain=classes,
+        classes_cols=classes_cols,
         log=log, recording=False, loaded=None
     )
     return _ENV
@@ -535,9 +596,10 @@ def _load_data(env, rels, tables, side=None, side_rows=()):
     if env["loaded"] == key:
         return
     tabs = [rels[0][0]] + [RELS[r][0] for r in rels]
+    full = env["classes_cols"]
     with env["eng"].begin() as conn:
-        for t in ("g", "d", "c", "p", "m", "t"):
-            conn.execute(delete(env["classes"][t].__table__))
+        for t in ("z", "y", "x", "g", "d", "c", "p", "m", "t"):
+            conn.execute(delete(full[t].__table__))
         todo = {}
         for pos, t in enumerate(tabs):
             up_col = RELS[rels[pos - 1]][3] if pos > 0 and RELS[rels[pos - 1]][1] == 0 else None
@@ -563,9 +625,9 @@ def _load_data(env, rels, tables, side=None, side_rows=()):
                 d[RELS[side][3]] = None if up == [] else up
                 rows.append(d)
             todo[t] = rows
-        for t in ("m", "t", "p", "c", "g", "d"):
+        for t in ("m", "t", "p", "c", "g", "d", "x", "y", "z"):
             if todo.get(t):
-                conn.execute(insert(env["classes"][t].__table__), todo[t])
+                conn.execute(insert(full[t].__table__), todo[t])
     env["loaded"] = key
 
 
@@ -798,11 +860,18 @@ def _run_assignment(env, rels, uq, asg, lvl_of, cmp_plan, side=None, colopts=Non
         with Session(env["eng"]) as s:
             keep = []
             tabs = [rels[0][0]] + [RELS[r][0] for r in rels]
-            for lv, maxid in preload:
+            for lv, maxid, mode in preload:
                 K = env["classes"][tabs[lv]]
                 pre = select(K).order_by(K.id)
                 if maxid != []:
                     pre = pre.where(K.id <= maxid)
+                if mode:
+                    from sqlalchemy.orm import selectinload
+
+                    nxt = rels[lv] if lv < len(rels) else None
+                    for r in REL_IDS:
+                        if r[0] == tabs[lv] and r != nxt:
+                            pre = pre.options(selectinload(getattr(K, r[1])))
                 keep.extend(s.scalars(pre).all())
             objs = s.scalars(st).unique().all()
             snap = _snapshot(objs, rels, keep, colopts is not None)
@@ -826,6 +895,7 @@ def _decode(c):
 
 
 def _impl_keys(env, c):
+    env["classes"] = env["classes_plain"]
     from sqlalchemy import delete, insert, select
     from sqlalchemy.orm import Session, immediateload, joinedload, lazyload, selectinload, subqueryload
 
@@ -886,6 +956,7 @@ def impl(c):
     r0, steps, uq, asgs, (cmp_plan,), _ = c["in"][:6]
     colopts = c["in"][6] if len(c["in"]) > 6 else None
     preload = c["in"][5][2] if len(c["in"][5]) > 2 else []
+    env["classes"] = env["classes_cols"] if colopts is not None else env["classes_plain"]
     _load_data(env, rels, [r0] + [st[3] for st in steps], side, uq[7][3] if side is not None else ())
     res = []
     first = None
@@ -1192,12 +1263,12 @@ LEVEL_NOTE = (
     "under Result.unique().  Column loader options (defer/undefer/load_only/with_expression, untriggered "
     "raiseload) are NOT modelled: they are checked only by the direct oracle on the implementation (two of the "
     "three known findings come from there).  NOT covered at all: noload, yield_per, inheritance loaders (C42), many-to-many/secondary, composite keys, "
-    "relationships or root queries without a total order, sibling relationships loaded in the same query "
-    "(paths only), populate_existing / pre-populated identity maps, PostgreSQL/MariaDB (SQLite only; DISTINCT "
+    "(composite keys: only the key-tuple grouping of selectin is modelled, a single relationship), relationships or root queries without a total order, sibling relationships loaded in the same query "
+    "(paths only), populate_existing, PostgreSQL/MariaDB (SQLite only; DISTINCT "
     "ON exists only as a flag of _should_nest_selectable).  Trusted: Coq kernel; the hand transcription "
     "(source pin + T2 extraction of _should_nest_selectable, the statement choice and _chunksize + behavioural "
     "correspondence of results AND emitted plan shapes over all strategy assignments); the SQL-to-shape "
-    "abstraction; SQLite's SELECT semantics (exercised through the correspondence).  The plan of a walk of 3 "
+    "abstraction; SQLite's SELECT semantics (exercised through the correspondence).  Pre-loaded Sessions (histories) are exercised by the correspondence and the oracle only: the model is a fresh-Session function and the theorem says the result must not depend on the history.  The plan of a walk of 3 "
     "relationships whose middle many-to-one target can be shared between separately issued statements is "
     "not compared (depends on the identity map), the results are.  No axioms."
 )
